@@ -322,6 +322,8 @@ func (c *Call) ExecRaw(api API) {
 		}
 	}()
 	switch c.Proc {
+	case "MNULL", "MNT", "UMNT", "UMNTALL", "DUMP", "EXPORT": // the MOUNT program (the path travels in Name)
+		execMount(api, c)
 	case "NULL":
 		api.NFSPROC3_NULL()
 		c.St = "OK"
